@@ -38,6 +38,10 @@ var (
 	budget uint64
 	cov    [maxSites / 64]uint64
 
+	nextMark uint64
+	spinInit bool
+	spinFns  []uintptr // function entry points, outermost first, common to all samples
+
 	// foreign counts Y calls made by goroutines the simulator does not own
 	// (diagnostic only; not part of any deterministic log).
 	foreign uint64
@@ -58,10 +62,17 @@ func Y(site uint32) {
 		}
 		steps++
 		cov[(site>>6)&(maxSites/64-1)] |= 1 << (site & 63)
-		if steps > budget {
-			// make sure deferred code does not re-trigger immediately
-			budget = ^uint64(0)
-			panic(NoProgress{Steps: steps, Site: site})
+		if steps > nextMark {
+			// The last spinWindow yields before exhaustion are sampled: the
+			// frames (outermost first) that all of those stacks share
+			// identify the function whose loop does not terminate,
+			// independently of where in the loop the budget ran out.
+			sampleSpin()
+			if steps > budget {
+				// make sure deferred code does not re-trigger immediately
+				nextMark = ^uint64(0)
+				panic(NoProgress{Steps: steps, Site: site})
+			}
 		}
 	case modeSched:
 		schedYield(site)
@@ -75,7 +86,55 @@ func BeginSingle(stepBudget uint64) {
 	mainG = getg()
 	steps = 0
 	budget = stepBudget
+	nextMark = stepBudget - spinWindow
+	if stepBudget < spinWindow {
+		nextMark = 0
+	}
+	spinInit = false
+	spinFns = spinFns[:0]
 	mode = modeSingle
+}
+
+const spinWindow = 96
+
+//go:norace
+func sampleSpin() {
+	var pcs [96]uintptr
+	n := runtime.Callers(2, pcs[:])
+	cur := make([]uintptr, 0, n)
+	for i := n - 1; i >= 0; i-- {
+		if f := runtime.FuncForPC(pcs[i] - 1); f != nil {
+			cur = append(cur, f.Entry())
+		} else {
+			cur = append(cur, 0)
+		}
+	}
+	if !spinInit {
+		spinInit = true
+		spinFns = append(spinFns[:0], cur...)
+		return
+	}
+	k := 0
+	for k < len(spinFns) && k < len(cur) && spinFns[k] == cur[k] {
+		k++
+	}
+	spinFns = spinFns[:k]
+}
+
+// SpinFunc returns the innermost function with the given name prefix that
+// was on the stack, at the same depth, at every one of the last yields before
+// the step budget ran out.
+func SpinFunc(prefix string) string {
+	last := ""
+	for _, e := range spinFns {
+		if f := runtime.FuncForPC(e); f != nil {
+			n := f.Name()
+			if len(n) >= len(prefix) && n[:len(prefix)] == prefix {
+				last = n
+			}
+		}
+	}
+	return last
 }
 
 // End stops accounting and returns the number of steps taken.
